@@ -333,8 +333,10 @@ impl PShim {
         let sh = self.sh.clone();
         let _ = crate::take_panic();
         let r = panic::catch_unwind(AssertUnwindSafe(|| {
-            let mut idx = 0usize;
-            for p in params {
+            // "params_skip": the shim fetches the k-th parameter first (Iterator::nth) and walks on from there
+            let skip = sh.borrow().sc["shim"]["params_skip"].as_u64().unwrap_or(0) as usize;
+            let mut idx = skip;
+            for p in params.into_iter().skip(skip) {
                 let ct = p.coltype as u8;
                 let val = p.value;
                 let shb = sh.borrow();
@@ -521,7 +523,8 @@ impl MysqlShim<Transport> for PShim {
     ) -> Result<(), SErr> {
         self.sh
             .borrow()
-            .emit(json!({"e": "cb", "name": "on_execute", "id": id.to_le_bytes().to_vec()}));
+            .emit(json!({"e": "cb", "name": "on_execute", "id": id.to_le_bytes().to_vec(),
+                "skip": self.sh.borrow().sc["shim"]["params_skip"].as_u64().unwrap_or(0)}));
         let ops = self.sh.borrow_mut().next_program();
         let cols = start_cols(&ops);
         let ok = self.log_params(params);
